@@ -5,3 +5,8 @@ package soyhtml
 // notifyUnbound is called by scope.lookup when no frame binds the key.
 // It does nothing unless the package is built with the verif tag.
 func notifyUnbound(string) {}
+
+// notifyCall is called by evalCall when the body of a called template starts
+// (enter) and when it has finished executing.  It does nothing unless the
+// package is built with the verif tag.
+func notifyCall(template string, enter bool) {}
